@@ -1059,3 +1059,10 @@ PROPS["C06"]["also"] = [("C05", "panic")]
 PROPS["C07"]["also"] = [("C14", "cycle_events:1405"), ("C14", "cycle_events:1406")]
 #  C12 "a station answers status requests addressed to it": a panicking poll answers nothing (C05's panic rule in the fdl domain).
 PROPS["C12"]["also"] = [("C05", "panic")]
+#  C15 "the token is passed once ... the hold time is over" is the hold rule monitored as C13's low_prio_after_hold_time /
+#      second_cycle_after_hold_time (theorem C13_hold_rule).
+PROPS["C15"]["also"] = [("C13", "low_prio_after_hold_time"), ("C13", "second_cycle_after_hold_time")]
+#  C10 is anchored in src/phy/mod.rs too: the receive helpers must drop exactly the decoder's reported length
+#      (C16's reassembly oracles in the phyrx domain).
+PROPS["C10"]["domains"] = list(PROPS["C10"]["domains"]) + ["phyrx"]
+PROPS["C10"]["also"] = [("C16", "reassembly"), ("C16", "is_last"), ("C16", "sim_reassembly")]
